@@ -27,7 +27,7 @@ def model_check(tier, wd, seed, log):
             f.write("SPECIFICATION Spec\nCONSTANTS\n  NC = %d\n  NJ = %d\n  NI = %d\n  MaxOps = %d\nVIEW View\nINVARIANT C20_OK\n"
                     "INVARIANT Accounting\nINVARIANT FinishedFlag\nINVARIANT RefinesQueueAccounting\nINVARIANT PrintLeaf\nCHECK_DEADLOCK FALSE\n" % (nc, nj, ni, ops))
         t0 = time.time()
-        env = dict(os.environ, JAVA_TOOL_OPTIONS="-Dtlc2.tool.queue.IStateQueue=MemStateQueue")
+        env = dict(os.environ, JAVA_TOOL_OPTIONS=(os.environ.get("JAVA_TOOL_OPTIONS", "") + " -Dtlc2.tool.queue.IStateQueue=MemStateQueue").strip())
         p = subprocess.run(["tlc", "-workers", str(common.NCPU), "-metadir", os.path.join(d, "meta-" + name), "-noGenerateSpecTE",
                             "-config", name + ".cfg", "QueueCtx.tla"], cwd=d, env=env, stdout=subprocess.PIPE, stderr=subprocess.STDOUT,
                            text=True, timeout=3000)
